@@ -479,6 +479,40 @@ func init() {
 			x.ghost["fetchq"] = q[1:]
 			return Tuple{q[0], x.B.True()}
 		},
+		"strings.Index": func(x *X, fn *ssa.Function, a []Value) Value {
+			// first occurrence of sep in s (concrete lengths, symbolic bytes): decided position by position
+			str, sep := a[0].(String), a[1].(String)
+			n, m := len(str.B), len(sep.B)
+			if m == 0 {
+				return x.c64(0)
+			}
+			for i := 0; i+m <= n; i++ {
+				cs := make([]*T, m)
+				for j := 0; j < m; j++ {
+					cs[j] = x.B.Eq(str.B[i+j], sep.B[j])
+				}
+				if x.branch(x.B.And(cs...)) {
+					return x.c64(uint64(i))
+				}
+			}
+			return x.c64(^uint64(0))
+		},
+		"strings.EqualFold": func(x *X, fn *ssa.Function, a []Value) Value {
+			// ASCII case folding (harnesses keep symbolic bytes below 0x80)
+			s1, s2 := a[0].(String), a[1].(String)
+			if len(s1.B) != len(s2.B) {
+				return x.B.False()
+			}
+			lower := func(c *T) *T {
+				up := x.B.And(x.B.ULE(x.B.Const('A', 8), c), x.B.ULE(c, x.B.Const('Z', 8)))
+				return x.B.Ite(up, x.B.Add(c, x.B.Const(32, 8)), c)
+			}
+			cs := make([]*T, len(s1.B))
+			for i := range s1.B {
+				cs[i] = x.B.Eq(lower(s1.B[i]), lower(s2.B[i]))
+			}
+			return x.B.And(cs...)
+		},
 		"internal/abi.NoEscape": func(x *X, fn *ssa.Function, a []Value) Value { return a[0] },
 		"(*" + ModulePath + "/protocol.StatCounter).Increment":   nop,
 		"(*" + ModulePath + "/protocol.StatCounter).IncrementBy": nop,
